@@ -10,6 +10,7 @@ import (
 	"github.com/zishang520/engine.io-go-parser/packet"
 	"github.com/zishang520/engine.io/v2/transports"
 	"github.com/zishang520/engine.io/v2/types"
+	verif "github.com/zishang520/engine.io/v2/internal/zzverif"
 )
 
 // fakeWriter records the response.
@@ -37,7 +38,9 @@ func (w *fakeWriter) Write(b []byte) (int, error) {
 func newCtx(method, path string) (*types.HttpContext, *fakeWriter) {
 	w := &fakeWriter{}
 	r := &http.Request{Method: method, URL: &url.URL{Path: path}, Header: http.Header{}, Proto: "HTTP/1.1", RemoteAddr: "192.0.2.1:1234"}
-	return types.NewHttpContext(w, r), w
+	c := types.NewHttpContext(w, r)
+	verif.Cleanup(c.Flush)
+	return c, w
 }
 
 // fakeTransport: the real transport base (state, events, Close/OnClose guards) with the
@@ -60,6 +63,9 @@ func newFakeTransport(name string, ctx *types.HttpContext) *fakeTransport {
 	f.Prototype(f)
 	f.Construct(ctx)
 	f.upgrades = name != transports.POLLING
+	if name != transports.POLLING {
+		f.SetWritable(true)
+	}
 	return f
 }
 
@@ -67,11 +73,17 @@ func (f *fakeTransport) Name() string          { return f.name }
 func (f *fakeTransport) HandlesUpgrades() bool { return f.upgrades }
 func (f *fakeTransport) OnRequest(ctx *types.HttpContext) {
 	f.requests = append(f.requests, ctx)
+	if f.name == transports.POLLING && ctx.Method() == "GET" {
+		// a poll request makes the polling transport writable
+		f.SetWritable(true)
+		f.Emit("ready")
+	}
 	if f.onRequest != nil {
 		f.onRequest(ctx)
 	}
 }
 func (f *fakeTransport) Send(p []*packet.Packet) {
+	f.SetWritable(false)
 	f.sent = append(f.sent, p)
 	if f.onSend != nil {
 		f.onSend(f, p)
@@ -87,6 +99,14 @@ func (f *fakeTransport) DoClose(fn types.Callable) {
 		fn()
 	}
 	f.OnClose()
+}
+
+// complete finishes the write cycle of the last Send: drain, and the transport is ready
+// again (for polling: as if the next poll had arrived).
+func (f *fakeTransport) complete() {
+	f.Emit("drain")
+	f.SetWritable(true)
+	f.Emit("ready")
 }
 
 // all packets handed to the transport, flattened in order.
